@@ -3210,16 +3210,16 @@ let undecided_positive p =
                            | Neg _ -> []))) p.assignments
 
 type ('vS, 'vr) result =
-  (('vS, 'vr) outcome * ('vS, 'vr) state) * 'vS pick_info list
+  ((('vS, 'vr) outcome * ('vS, 'vr) state) * 'vS pick_info list) * nat
 
 (** val res_out :
-    'a1 pick_info list -> 'a3 res -> ('a3 -> ('a1, 'a2) result) -> ('a1, 'a2)
-    state -> ('a1, 'a2) result **)
+    'a1 pick_info list -> nat -> 'a3 res -> ('a3 -> ('a1, 'a2) result) ->
+    ('a1, 'a2) state -> ('a1, 'a2) result **)
 
-let res_out log r k st =
+let res_out log cnt r k st =
   match r with
   | Good a -> k a
-  | Panic s -> (((OPanic s), st), log)
+  | Panic s -> ((((OPanic s), st), log), cnt)
 
 (** val resolve_loop :
     ('a1, 'a2) vSOps -> ('a2 -> 'a2 -> bool) -> nat -> ('a1, 'a2) state ->
@@ -3228,15 +3228,15 @@ let res_out log r k st =
 
 let rec resolve_loop o veqb0 fuel st next added tr n0 log =
   match fuel with
-  | O -> ((OOutOfFuel, st), log)
+  | O -> (((OOutOfFuel, st), log), n0)
   | S fuel' ->
     (match tr with
-     | [] -> (((OMismatch (n0, (Npos (XI (XO XH))))), st), log)
+     | [] -> ((((OMismatch (n0, (Npos (XI (XO XH))))), st), log), n0)
      | e :: tr1 ->
        (match e with
         | EvCancel ok ->
           if negb ok
-          then ((OErrCancel, st), log)
+          then (((OErrCancel, st), log), (S n0))
           else (match unit_propagation o fuel st (next :: []) with
                 | Inl u ->
                   (match u with
@@ -3260,15 +3260,16 @@ let rec resolve_loop o veqb0 fuel st next added tr n0 log =
                          | Some mx ->
                            (match tr2 with
                             | [] ->
-                              (((OMismatch (n2, (Npos (XO (XO XH))))), st1),
-                                log1)
+                              ((((OMismatch (n2, (Npos (XO (XO XH))))), st1),
+                                log1), n2)
                             | e0 :: tr3 ->
                               (match e0 with
                                | EvChoose (p2, s, ans) ->
                                  (match get p2 q with
                                   | Some prio ->
                                     if negb (Z.eqb prio mx)
-                                    then (((OPickNotMax (n2, p2)), st1), log1)
+                                    then ((((OPickNotMax (n2, p2)), st1),
+                                           log1), n2)
                                     else let st2 =
                                            upd_ps st1
                                              (with_queue (remove p2 q))
@@ -3278,20 +3279,23 @@ let rec resolve_loop o veqb0 fuel st next added tr n0 log =
                                             (match ti with
                                              | Pos cur_set ->
                                                if negb (o.vs_eqb s cur_set)
-                                               then (((OMismatch (n2, (Npos
-                                                      (XO XH)))), st2), log1)
+                                               then ((((OMismatch (n2, (Npos
+                                                      (XO XH)))), st2),
+                                                      log1), n2)
                                                else (match ans with
                                                      | CSome v ->
                                                        if negb
                                                             (t_contains o ti
                                                               v)
-                                                       then (((OFailure
+                                                       then ((((OFailure
                                                               FIncompatibleVersion),
-                                                              st2), log1)
+                                                              st2), log1), (S
+                                                              n2))
                                                        else if added_has
                                                                  veqb0 added
                                                                  p2 v
                                                             then res_out log1
+                                                                   (S n2)
                                                                    (add_decision
                                                                     o st2.ps
                                                                     p2 v)
@@ -3311,12 +3315,13 @@ let rec resolve_loop o veqb0 fuel st next added tr n0 log =
                                                                  in
                                                                  (match tr3 with
                                                                   | [] ->
-                                                                    (((OMismatch
+                                                                    ((((OMismatch
                                                                     ((S n2),
                                                                     (Npos (XI
                                                                     XH)))),
                                                                     st2),
-                                                                    log1)
+                                                                    log1), (S
+                                                                    n2))
                                                                   | e1 :: tr4 ->
                                                                     (match e1 with
                                                                     | EvDeps (
@@ -3330,17 +3335,19 @@ let rec resolve_loop o veqb0 fuel st next added tr n0 log =
                                                                     (veqb0 v
                                                                     v'))
                                                                     then 
-                                                                    (((OMismatch
+                                                                    ((((OMismatch
                                                                     ((S n2),
                                                                     (Npos (XI
                                                                     XH)))),
                                                                     st2),
-                                                                    log1)
+                                                                    log1), (S
+                                                                    n2))
                                                                     else 
                                                                     (match dans with
                                                                     | DAvail deps ->
                                                                     res_out
-                                                                    log1
+                                                                    log1 (S
+                                                                    (S n2))
                                                                     (add_incompatibility_from_dependencies
                                                                     o st2 p2
                                                                     v deps)
@@ -3351,7 +3358,8 @@ let rec resolve_loop o veqb0 fuel st next added tr n0 log =
                                                                     pat
                                                                     in
                                                                     res_out
-                                                                    log1
+                                                                    log1 (S
+                                                                    (S n2))
                                                                     (add_version
                                                                     o st3.ps
                                                                     p2 v
@@ -3369,7 +3377,8 @@ let rec resolve_loop o veqb0 fuel st next added tr n0 log =
                                                                     st3) st2
                                                                     | DUnavail m ->
                                                                     res_out
-                                                                    log1
+                                                                    log1 (S
+                                                                    (S n2))
                                                                     (add_incompatibility
                                                                     o st2
                                                                     (custom_version
@@ -3383,22 +3392,24 @@ let rec resolve_loop o veqb0 fuel st next added tr n0 log =
                                                                     n2)) log1)
                                                                     st2
                                                                     | DErr ->
-                                                                    (((OErrDeps
+                                                                    ((((OErrDeps
                                                                     (p2, v)),
                                                                     st2),
-                                                                    log1))
+                                                                    log1), (S
+                                                                    (S n2))))
                                                                     | _ ->
-                                                                    (((OMismatch
+                                                                    ((((OMismatch
                                                                     ((S n2),
                                                                     (Npos (XI
                                                                     XH)))),
                                                                     st2),
-                                                                    log1)))
+                                                                    log1), (S
+                                                                    n2))))
                                                      | CNone ->
                                                        (match no_versions p2
                                                                 ti with
                                                         | Some inc ->
-                                                          res_out log1
+                                                          res_out log1 (S n2)
                                                             (add_incompatibility
                                                               o st2 inc)
                                                             (fun st3 ->
@@ -3407,36 +3418,39 @@ let rec resolve_loop o veqb0 fuel st next added tr n0 log =
                                                               p2 added tr3 (S
                                                               n2) log1) st2
                                                         | None ->
-                                                          (((OPanic
+                                                          ((((OPanic
                                                             PNoVersionsNegative),
-                                                            st2), log1))
+                                                            st2), log1), (S
+                                                            n2)))
                                                      | CErr ->
-                                                       ((OErrChoose, st2),
-                                                         log1))
+                                                       (((OErrChoose, st2),
+                                                         log1), (S n2)))
                                              | Neg _ ->
-                                               (((OPanic PUnwrapPositive),
-                                                 st2), log1))
+                                               ((((OPanic PUnwrapPositive),
+                                                 st2), log1), n2))
                                           | None ->
-                                            (((OFailure FNoTerm), st2), log1))
+                                            ((((OFailure FNoTerm), st2),
+                                              log1), n2))
                                   | None ->
-                                    (((OPickNotMax (n2, p2)), st1), log1))
+                                    ((((OPickNotMax (n2, p2)), st1), log1),
+                                      n2))
                                | _ ->
-                                 (((OMismatch (n2, (Npos (XO (XO XH))))),
-                                   st1), log1)))
+                                 ((((OMismatch (n2, (Npos (XO (XO XH))))),
+                                   st1), log1), n2)))
                          | None ->
-                           res_out log1 (extract_solution p1) (fun sol ->
-                             (((OSolution sol), (upd_ps st1 (with_queue q))),
-                             log1)) st1)
-                      | Inr o0 -> ((o0, st1), log))
+                           res_out log1 n2 (extract_solution p1) (fun sol ->
+                             ((((OSolution sol),
+                             (upd_ps st1 (with_queue q))), log1), n2)) st1)
+                      | Inr o0 -> (((o0, st1), log), (S n0)))
                    | UPConflict (st1, id) ->
                      (match build_derivation_tree st1.store id with
-                      | Some t0 -> (((ONoSolution t0), st1), log)
-                      | None -> (((OPanic PTreeMissing), st1), log)))
+                      | Some t0 -> ((((ONoSolution t0), st1), log), (S n0))
+                      | None -> ((((OPanic PTreeMissing), st1), log), (S n0))))
                 | Inr o0 ->
                   (match o0 with
-                   | EFuel -> ((OOutOfFuel, st), log)
-                   | EPanic s -> (((OPanic s), st), log)))
-        | _ -> (((OMismatch (n0, (Npos (XI (XO XH))))), st), log)))
+                   | EFuel -> (((OOutOfFuel, st), log), (S n0))
+                   | EPanic s -> ((((OPanic s), st), log), (S n0))))
+        | _ -> ((((OMismatch (n0, (Npos (XI (XO XH))))), st), log), n0)))
 
 (** val resolve :
     ('a1, 'a2) vSOps -> ('a2 -> 'a2 -> bool) -> nat -> pkg0 -> 'a2 -> ('a1,
